@@ -59,6 +59,29 @@ class ReduceNoArgs(object):
         return (ReduceNoArgs, (), {'kept': self.kept})
 
 
+class StatePair(object):
+    """__getstate__ returns a 2-tuple, __setstate__ takes it back (a tuple state with a custom __setstate__)"""
+    def __init__(self):
+        self.first = None
+        self.second = None
+
+    def __getstate__(self):
+        return (self.first, self.second)
+
+    def __setstate__(self, state):
+        self.first, self.second = state
+
+
+class SlotsState(object):
+    """__slots__ with a hand-written __setstate__ that receives copyreg's (None, {slot: value}) pair"""
+    __slots__ = ('u', 'v')
+
+    def __setstate__(self, state):
+        d, slots = state
+        for k, val in slots.items():
+            setattr(self, k, val)
+
+
 class ListSub(list):
     """list subclass with an attribute: state + listitems"""
 
